@@ -248,9 +248,9 @@ THOROUGH = [_reg(Present("T_present", 2, 3, 5, [0, 1, 2, 3])).name, _reg(PanSN("
 
 # archive level, through the real CLI create path (harness/cli_create.py)
 from harness import cli_create as _cc
-for _n in ['present_arc', 'pan_vs_files']:
+for _n in ['present_arc', 'pan_vs_files', 'create_pan_prefix_t1']:
     INSTANCES[_n] = _cc.INSTANCES[_n]
-QUICK += ['present_arc', 'pan_vs_files']; THOROUGH += ['present_arc', 'pan_vs_files']
+QUICK += ['present_arc', 'pan_vs_files', 'create_pan_prefix_t1']; THOROUGH += ['present_arc', 'pan_vs_files', 'create_pan_prefix_t1']
 
 
 def run(ctx):
